@@ -52,6 +52,14 @@ import (
 //     compared with 0 / 1 is `!= 0` or `== 0` (`n > 0`, `n >= 1`, `0 < n` …);
 //   * single-definition locals are replaced by their defining expression, so a
 //     temporary, an if-initialiser or a hoisted literal do not show.
+//   * `for i := range n` over an integer is walked as `for i := 0; i < n; i++` when
+//     the body does not write i and n is invariant (see "range over an integer");
+//     fmt.Errorf of a constant format without verbs is errors.New of it;
+//   * helper calls that the source normaliser expanded in place are read as the
+//     statements of the helper standing in the function (see "expanded helper
+//     calls": run-once blocks, result temporaries, aliases, decided nil tests);
+//   * an unexported package-level variable without a namesake on the other side
+//     takes the name of the variable with the same definition there.
 //
 // Besides the sites, two whole-function multisets are extracted in the same
 // normal form (with comparison orientation canonicalised: a >= b is b <= a,
@@ -86,6 +94,12 @@ type fdSide struct {
 	// fields of same-named struct types that the other side does not have
 	// (fork: lax, name, Field); assignments to them are not part of the strict residual
 	extraFields map[types.Object]bool
+	// fork: package-level variables that exist under another name upstream (matched
+	// by their definition, see fdMatchPkgVars) -> upstream's name
+	rename map[types.Object]string
+	// identifiers made by the walker (the counter of a range-over-int loop written
+	// as a three-clause loop) -> their variable
+	synth map[*ast.Ident]types.Object
 }
 
 // fdSingleDefs finds the locals of fd that are defined exactly once by a 1:1
@@ -225,17 +239,134 @@ func fdTypeStr(t types.Type) string {
 
 // fdAlign aligns the fork's parameter list with upstream's: upstream's types
 // must be a subsequence of the fork's.  Returns fork index -> upstream index (-1 = fork-only).
-func fdAlign(fork, up *types.Signature) ([]int, bool) {
+func fdAlign(fork, up *types.Signature) ([]int, bool) { return fdAlignSkip(fork, up, nil) }
+
+// fdAlignSkip aligns against upstream's parameter list without the positions in skip.
+func fdAlignSkip(fork, up *types.Signature, skip map[int]bool) ([]int, bool) {
 	m := make([]int, fork.Params().Len())
 	j := 0
+	next := func() {
+		for j < up.Params().Len() && skip[j] {
+			j++
+		}
+	}
+	next()
 	for i := 0; i < fork.Params().Len(); i++ {
 		m[i] = -1
 		if j < up.Params().Len() && fdTypeStr(fork.Params().At(i).Type()) == fdTypeStr(up.Params().At(j).Type()) {
 			m[i] = j
 			j++
+			next()
 		}
 	}
 	return m, j == up.Params().Len()
+}
+
+// ---- parameters every caller derives from another parameter ---------------------------
+//
+// When upstream's unexported function g is only ever called directly, and every call
+// passes for parameter k the value X.M() where X is the identifier it passes for
+// parameter j and M is a niladic method of reflect.Type (immutable descriptors, pure
+// methods), and g writes neither parameter, then inside g parameter k always equals
+// Pj.M(): g is the function without parameter k that computes Pj.M() itself.  Used
+// when the fork's parameter list is not upstream's plus additions but is upstream's
+// without such parameters plus additions (the fork derives the value in the callee).
+
+type fdDerived struct {
+	from   int    // j
+	method string // M
+}
+
+func fdDerivedParams(us *fdSide, uo *types.Func, ud *ast.FuncDecl) map[int]fdDerived {
+	info := us.pkg.TypesInfo
+	sig := uo.Type().(*types.Signature)
+	if uo.Exported() || sig.Recv() != nil || sig.Variadic() {
+		return nil
+	}
+	// every reference is the function position of a call
+	calls := map[*ast.Ident]*ast.CallExpr{}
+	for _, f := range us.pkg.Syntax {
+		ast.Inspect(f, func(n ast.Node) bool {
+			if c, ok := n.(*ast.CallExpr); ok {
+				if id, ok := fdUnparen(c.Fun).(*ast.Ident); ok && info.Uses[id] == uo {
+					calls[id] = c
+				}
+			}
+			return true
+		})
+	}
+	n := 0
+	for id, o := range info.Uses {
+		if o == uo {
+			n++
+			if calls[id] == nil {
+				return nil
+			}
+		}
+	}
+	if n == 0 {
+		return nil
+	}
+	written := fdWrittenIn(ud.Body, info)
+	out := map[int]fdDerived{}
+	for k := 0; k < sig.Params().Len(); k++ {
+		if written.any(sig.Params().At(k)) {
+			continue
+		}
+		var d *fdDerived
+		ok := true
+		for _, c := range calls {
+			if len(c.Args) != sig.Params().Len() || c.Ellipsis.IsValid() {
+				ok = false
+				break
+			}
+			call, isCall := fdUnparen(c.Args[k]).(*ast.CallExpr)
+			if !isCall || len(call.Args) != 0 {
+				ok = false
+				break
+			}
+			sel, isSel := fdUnparen(call.Fun).(*ast.SelectorExpr)
+			if !isSel {
+				ok = false
+				break
+			}
+			x, isId := fdUnparen(sel.X).(*ast.Ident)
+			xv, isVar := info.Uses[x].(*types.Var)
+			if !isId || !isVar || xv.IsField() {
+				ok = false
+				break
+			}
+			if nt, isNamed := xv.Type().(*types.Named); !isNamed || nt.Obj().Pkg() == nil || nt.Obj().Pkg().Path() != "reflect" || nt.Obj().Name() != "Type" {
+				ok = false
+				break
+			}
+			if _, isFn := info.Uses[sel.Sel].(*types.Func); !isFn {
+				ok = false
+				break
+			}
+			j := -1
+			for i, a := range c.Args {
+				if id, isId := fdUnparen(a).(*ast.Ident); isId && i != k && info.Uses[id] == xv {
+					j = i
+					break
+				}
+			}
+			if j < 0 || written.any(sig.Params().At(j)) {
+				ok = false
+				break
+			}
+			cur := fdDerived{j, sel.Sel.Name}
+			if d != nil && *d != cur {
+				ok = false
+				break
+			}
+			d = &cur
+		}
+		if ok && d != nil {
+			out[k] = *d
+		}
+	}
+	return out
 }
 
 // ---- normal-form printer -------------------------------------------------------
@@ -250,13 +381,33 @@ type fdCtx struct {
 	// of == / != sorted) and locals are numbered after that, by first occurrence
 	// in the final text (used for the condition / assignment items)
 	canon bool
+	// w: the walker of the function being rendered (nil outside functions); its
+	// merged variables and storage aliases (see "expanded helper calls") apply
+	w *fdWalker
 }
 
 func (c *fdCtx) obj(id *ast.Ident) types.Object {
-	if o := c.s.pkg.TypesInfo.Uses[id]; o != nil {
+	if o := c.s.synth[id]; o != nil {
 		return o
 	}
-	return c.s.pkg.TypesInfo.Defs[id]
+	o := c.s.pkg.TypesInfo.Uses[id]
+	if o == nil {
+		o = c.s.pkg.TypesInfo.Defs[id]
+	}
+	if c.w != nil {
+		if m, ok := c.w.merge[o]; ok {
+			return m
+		}
+	}
+	return o
+}
+
+// aliasOf: the storage the variable has been identified with, if any.
+func (c *fdCtx) aliasOf(o types.Object) ast.Expr {
+	if c.w == nil || o == nil || c.busy[o] {
+		return nil
+	}
+	return c.w.alias[o]
 }
 
 func (c *fdCtx) ident(id *ast.Ident) string {
@@ -269,6 +420,12 @@ func (c *fdCtx) ident(id *ast.Ident) string {
 	}
 	if p, ok := c.params[o]; ok {
 		return p
+	}
+	if a := c.aliasOf(o); a != nil {
+		c.busy[o] = true
+		s := c.expr(a)
+		delete(c.busy, o)
+		return s
 	}
 	if v, ok := o.(*types.Var); ok && !v.IsField() && o.Pkg() != nil && o.Parent() != o.Pkg().Scope() {
 		if def, ok := c.inline[o]; ok && !c.busy[o] && len(c.busy) < 12 {
@@ -287,6 +444,9 @@ func (c *fdCtx) ident(id *ast.Ident) string {
 		c.locals[o] = n
 		return n
 	}
+	if n, ok := c.s.rename[o]; ok {
+		return n
+	}
 	return id.Name
 }
 
@@ -295,6 +455,11 @@ func (c *fdCtx) lhs(e ast.Expr) string {
 	switch e := e.(type) {
 	case *ast.Ident:
 		if o := c.obj(e); o != nil {
+			if a := c.aliasOf(o); a != nil {
+				c.busy[o] = true
+				defer delete(c.busy, o)
+				return c.lhs(a)
+			}
 			if _, inl := c.inline[o]; inl {
 				saved := c.inline
 				c.inline = nil
@@ -426,6 +591,9 @@ func (c *fdCtx) expr(e ast.Expr) string {
 				}
 			}
 		}
+		if c.plainErrorf(e) {
+			return "errors.New(" + c.exprs(args) + ")"
+		}
 		return c.expr(e.Fun) + "(" + c.exprs(args) + ")"
 	case *ast.IndexExpr:
 		return c.expr(e.X) + "[" + c.expr(e.Index) + "]"
@@ -481,6 +649,24 @@ func (c *fdCtx) expr(e ast.Expr) string {
 		return "func{…}"
 	}
 	return c.typeExpr(e)
+}
+
+// plainErrorf: fmt.Errorf with a constant format that has no verb and no further
+// argument.  fmt.Errorf then returns errors.New(format) (no %w, so no wrapping
+// type; Sprintf of a verb-less format is the format): the call reads errors.New(…).
+func (c *fdCtx) plainErrorf(call *ast.CallExpr) bool {
+	if len(call.Args) != 1 || call.Ellipsis.IsValid() {
+		return false
+	}
+	fn, ok := c.calleeObj(call).(*types.Func)
+	if !ok || fn.Pkg() == nil || fn.Pkg().Path() != "fmt" || fn.Name() != "Errorf" {
+		return false
+	}
+	tv, ok := c.s.pkg.TypesInfo.Types[call.Args[0]]
+	if !ok || tv.Value == nil || tv.Value.Kind() != constant.String {
+		return false
+	}
+	return !strings.Contains(constant.StringVal(tv.Value), "%")
 }
 
 type fdLitField struct {
@@ -669,12 +855,26 @@ func fdCondOf(pre string, e ast.Expr, post string) fdCond {
 
 type fdWalker struct {
 	s          *fdSide
+	fd         *ast.FuncDecl
 	fn         string
 	ctx        func() *fdCtx // fresh context (parameter names of the current function, no locals)
 	hasResults bool
 	sites      []fdSite
 	items      []fdSite              // branch conditions and tracked assignments of the whole function
 	tracked    map[types.Object]bool // named results and the locals that flow into returned values
+	// expanded helper calls (see below)
+	merge    map[types.Object]types.Object // variables of disjoint blocks read as one variable
+	alias    map[types.Object]ast.Expr     // variables identified with the storage they are copied to
+	once     map[*ast.LabeledStmt]*fdOnce
+	regionAt map[ast.Stmt]*fdRegion        // by region statement
+	cbOf     map[*ast.AssignStmt]*fdRegion // by copy-back statement
+	exitOf   map[*ast.AssignStmt]*fdRegion // by exit statement
+	frames   []*fdFrame
+	loops    []*fdLoop // enclosing loops and switches, innermost last
+	label    string    // label of the statement about to be walked
+	dry      int       // > 0: walking for the facts only (loop fixpoint), nothing is emitted
+	facts    *fdState
+	noFacts  map[types.Object]bool // address-taken or captured by a function literal
 }
 
 var fdTmpLocal = regexp.MustCompile("\x00[0-9]+\x00")
@@ -696,6 +896,9 @@ func fdRenumber(s string) string {
 }
 
 func (w *fdWalker) emitItem(kind string, render func(c *fdCtx) string, pos token.Pos) {
+	if w.dry > 0 {
+		return
+	}
 	c := w.ctx()
 	c.canon = true
 	w.items = append(w.items, fdSite{Fn: w.fn, Text: kind + " " + fdRenumber(render(c)), Pos: pos, Fork: w.s.fork})
@@ -710,10 +913,17 @@ func (w *fdWalker) lvalueBase(e ast.Expr) (types.Object, bool) {
 	info := w.s.pkg.TypesInfo
 	switch e := e.(type) {
 	case *ast.Ident:
-		if o := info.Defs[e]; o != nil {
-			return o, false
+		o := info.Defs[e]
+		if o == nil {
+			o = info.Uses[e]
 		}
-		return info.Uses[e], false
+		if m, ok := w.merge[o]; ok {
+			o = m
+		}
+		if a, ok := w.alias[o]; ok {
+			return w.lvalueBase(a)
+		}
+		return o, false
 	case *ast.ParenExpr:
 		return w.lvalueBase(e.X)
 	case *ast.SelectorExpr:
@@ -765,6 +975,9 @@ func (w *fdWalker) assignItem(st ast.Stmt) {
 }
 
 func (w *fdWalker) emit(kind string, head func(c *fdCtx) string, chain []fdCond, pos token.Pos) {
+	if w.dry > 0 {
+		return
+	}
 	c := w.ctx()
 	var parts []string
 	for _, k := range chain {
@@ -850,7 +1063,12 @@ func (w *fdWalker) sitesIn(n ast.Node, chain []fdCond) {
 	ast.Inspect(n, func(x ast.Node) bool {
 		switch x := x.(type) {
 		case *ast.FuncLit:
+			// (its breaks / continues / labels are its own; what it writes of the
+			// enclosing function is not tracked: captured variables have no facts)
+			frames, loops, facts := w.frames, w.loops, w.facts
+			w.frames, w.loops, w.facts = nil, nil, facts.clone()
 			w.stmts(x.Body.List, append(append([]fdCond{}, chain...), fdCond{pre: "func{}"}))
+			w.frames, w.loops, w.facts = frames, loops, facts
 			return false
 		case *ast.CompositeLit:
 			if x.Type != nil && w.inPkgErrorType(x) {
@@ -861,6 +1079,9 @@ func (w *fdWalker) sitesIn(n ast.Node, chain []fdCond) {
 			name := c0.typeExpr(x.Fun)
 			switch {
 			case fdErrCtors[name]:
+				if c0.plainErrorf(x) {
+					name = "errors.New"
+				}
 				w.emit("err", func(c *fdCtx) string {
 					if len(x.Args) == 0 {
 						return name + "()"
@@ -1045,16 +1266,51 @@ func fdWith(chain []fdCond, k ...fdCond) []fdCond {
 	return append(append([]fdCond{}, chain...), k...)
 }
 
-func (w *fdWalker) stmts(list []ast.Stmt, chain []fdCond) {
-	for _, st := range list {
+// stmts walks a statement list.  It reports whether control cannot reach the end
+// of the list (a statement left it on every path).
+func (w *fdWalker) stmts(list []ast.Stmt, chain []fdCond) bool {
+	for i, st := range list {
+		// the expansion of a helper call whose body runs once: `L: for { …; break L }`.
+		// Every `break L` continues with the statements that follow the block, so the
+		// block reads as its body with those statements in place of each `break L`.
+		if ls, ok := st.(*ast.LabeledStmt); ok {
+			if ob := w.once[ls]; ob != nil && (!ob.inLoop || fdTerminates(list[i+1:])) {
+				if i+1 < len(list) {
+					if cb, ok := list[i+1].(*ast.AssignStmt); ok {
+						if rg := w.cbOf[cb]; rg != nil && rg.stmt == st {
+							w.enterRegion(rg)
+						}
+					}
+				}
+				fr := &fdFrame{label: ob.label, cont: list[i+1:]}
+				w.frames = append(w.frames, fr)
+				w.stmts(ob.body, chain)
+				w.frames = w.frames[:len(w.frames)-1]
+				// the body always ends in `break L` or leaves the function: what follows
+				// the block has been walked at each break
+				if len(fr.outs) == 0 {
+					return true
+				}
+				w.facts = fdJoinAll(fr.outs)
+				return false
+			}
+		}
+		if i+1 < len(list) {
+			if cb, ok := list[i+1].(*ast.AssignStmt); ok {
+				if rg := w.cbOf[cb]; rg != nil && rg.stmt == st && rg.label == "" {
+					w.enterRegion(rg)
+				}
+			}
+		}
 		dead, guards := w.stmt(st, chain)
 		if dead {
-			return
+			return true
 		}
 		if len(guards) > 0 {
 			chain = fdWith(chain, guards...)
 		}
 	}
+	return fdTerminates(list)
 }
 
 // stmt walks one statement.  It returns dead=true when the statements that
@@ -1069,12 +1325,50 @@ func (w *fdWalker) stmtN(st ast.Stmt, chain []fdCond) (dead bool, guards []fdCon
 	switch s := st.(type) {
 	case nil:
 	case *ast.BlockStmt:
-		w.stmts(s.List, chain)
+		if w.stmts(s.List, chain) {
+			return true, nil
+		}
 	case *ast.LabeledStmt:
+		w.label = s.Label.Name
+		defer func() { w.label = "" }()
 		if _, isSwitch := s.Stmt.(*ast.SwitchStmt); isSwitch {
 			return w.stmtN(s.Stmt, chain) // a `break L` may leave it: kept as a switch
 		}
 		return w.stmt(s.Stmt, chain)
+	case *ast.BranchStmt:
+		if s.Tok == token.BREAK && s.Label != nil {
+			for k := len(w.frames) - 1; k >= 0; k-- {
+				if fr := w.frames[k]; fr.label == s.Label.Name {
+					saved := w.frames
+					w.frames = w.frames[:k]
+					if !w.stmts(fr.cont, chain) {
+						fr.outs = append(fr.outs, w.facts.clone())
+					}
+					w.frames = saved
+					return true, nil
+				}
+			}
+		}
+		// the state flows to the head of / out of the loop it refers to
+		if s.Tok == token.BREAK || s.Tok == token.CONTINUE {
+			for k := len(w.loops) - 1; k >= 0; k-- {
+				lp := w.loops[k]
+				if s.Label != nil && lp.label != s.Label.Name {
+					continue
+				}
+				if s.Label == nil && s.Tok == token.CONTINUE && !lp.isLoop {
+					continue // a switch is transparent to continue
+				}
+				if lp.isLoop {
+					if s.Tok == token.BREAK {
+						lp.brks = append(lp.brks, w.facts.clone())
+					} else {
+						lp.conts = append(lp.conts, w.facts.clone())
+					}
+				}
+				break
+			}
+		}
 	case *ast.IfStmt:
 		// `if a || b {X}` with X leaving is `if a {X}; if b {X}`
 		if fdOrSplits(s) {
@@ -1096,6 +1390,15 @@ func (w *fdWalker) stmtN(st ast.Stmt, chain []fdCond) (dead bool, guards []fdCon
 		}
 		w.sitesIn(s.Cond, chain)
 		cv := w.ctx().expr(s.Cond)
+		if cv != "true" && cv != "false" {
+			// a nil test whose outcome the assignments and tests before it decide
+			if v, known := w.evalCond(s.Cond); known {
+				cv = "false"
+				if v {
+					cv = "true"
+				}
+			}
+		}
 		var elseList []ast.Stmt
 		switch e := s.Else.(type) {
 		case *ast.BlockStmt:
@@ -1105,42 +1408,110 @@ func (w *fdWalker) stmtN(st ast.Stmt, chain []fdCond) (dead bool, guards []fdCon
 		}
 		switch cv {
 		case "false":
-			w.stmts(elseList, chain)
-			return fdTerminates(elseList), nil
+			return w.stmts(elseList, chain), nil
 		case "true":
-			w.stmts(s.Body.List, chain)
-			return fdTerminates(s.Body.List), nil
+			return w.stmts(s.Body.List, chain), nil
 		}
 		pos, neg := fdCondOf("", s.Cond, ""), fdCondOf("!(", s.Cond, ")")
 		w.emitCond(pos, s.Cond.Pos())
-		w.stmts(s.Body.List, fdWith(chain, pos))
-		w.stmts(elseList, fdWith(chain, neg))
-		tb, te := fdTerminates(s.Body.List), s.Else != nil && fdTerminates(elseList)
+		f0 := w.facts
+		w.facts = f0.clone()
+		w.facts.assume(w, s.Cond, true)
+		tb := w.stmts(s.Body.List, fdWith(chain, pos))
+		fb := w.facts
+		w.facts = f0.clone()
+		w.facts.assume(w, s.Cond, false)
+		te := w.stmts(elseList, fdWith(chain, neg))
+		fe := w.facts
 		switch {
 		case tb && te:
 			return true, nil
 		case tb:
+			w.facts = fe
 			return false, []fdCond{neg}
 		case te:
+			w.facts = fb
 			return false, []fdCond{pos}
 		}
+		w.facts = fdJoin(fb, fe)
 	case *ast.ForStmt:
+		label := w.label
+		w.label = ""
 		if s.Init != nil {
 			w.stmt(s.Init, chain)
 		}
 		in := fdWith(chain, fdCondOf("for(", s.Cond, ")"))
+		pass := func() (end *fdState) {
+			w.facts.assume(w, s.Cond, true)
+			w.sitesIn(s.Cond, in)
+			if !w.stmts(s.Body.List, in) {
+				end = w.facts
+			}
+			return end
+		}
+		post := func(st *fdState) *fdState {
+			if st == nil || s.Post == nil {
+				return st
+			}
+			w.facts = st
+			w.dry++
+			w.stmt(s.Post, in)
+			w.dry--
+			return w.facts
+		}
+		head := w.loopHead(label, &ast.ForStmt{Cond: s.Cond, Post: s.Post, Body: s.Body}, pass, post)
 		if s.Cond != nil {
 			w.emitCond(fdCondOf("for(", s.Cond, ")"), s.Cond.Pos())
 		}
-		w.sitesIn(s.Cond, in)
-		w.stmts(s.Body.List, in)
+		lp := &fdLoop{label: label, isLoop: true}
+		w.loops = append(w.loops, lp)
+		w.facts = head.clone()
+		end := pass()
 		if s.Post != nil {
+			if end != nil {
+				w.facts = end
+			}
 			w.stmt(s.Post, in)
 		}
+		w.loops = w.loops[:len(w.loops)-1]
+		// the loop is left when the condition fails at its head, or by a break
+		outs := lp.brks
+		if s.Cond != nil {
+			out := head.clone()
+			out.assume(w, s.Cond, false)
+			outs = append(outs, out)
+		}
+		if len(outs) == 0 {
+			outs = []*fdState{head}
+		}
+		w.facts = fdJoinAll(outs)
 	case *ast.RangeStmt:
+		if f := w.rangeIntAsFor(s); f != nil {
+			return w.stmtN(f, chain)
+		}
+		label := w.label
+		w.label = ""
 		w.sitesIn(s.X, chain)
 		w.emitCond(fdCondOf("range(", s.X, ")"), s.X.Pos())
-		w.stmts(s.Body.List, fdWith(chain, fdCondOf("range(", s.X, ")")))
+		in := fdWith(chain, fdCondOf("range(", s.X, ")"))
+		pass := func() (end *fdState) {
+			for _, e := range []ast.Expr{s.Key, s.Value} {
+				if e != nil {
+					w.facts.assign(w, e, 0)
+				}
+			}
+			if !w.stmts(s.Body.List, in) {
+				end = w.facts
+			}
+			return end
+		}
+		head := w.loopHead(label, s, pass, func(st *fdState) *fdState { return st })
+		lp := &fdLoop{label: label, isLoop: true}
+		w.loops = append(w.loops, lp)
+		w.facts = head.clone()
+		pass()
+		w.loops = w.loops[:len(w.loops)-1]
+		w.facts = fdJoinAll(append(lp.brks, head))
 	case *ast.SwitchStmt:
 		if s.Init != nil {
 			w.stmt(s.Init, chain)
@@ -1150,6 +1521,10 @@ func (w *fdWalker) stmtN(st ast.Stmt, chain []fdCond) (dead bool, guards []fdCon
 		for _, cl := range s.Body.List {
 			all = append(all, cl.(*ast.CaseClause).List...)
 		}
+		f0 := w.facts
+		w.loops = append(w.loops, &fdLoop{label: w.label})
+		w.label = ""
+		defer func(n int) { w.loops = w.loops[:n] }(len(w.loops) - 1)
 		for _, cl := range s.Body.List {
 			cc := cl.(*ast.CaseClause)
 			k := fdCond{pre: "sw("}
@@ -1179,8 +1554,11 @@ func (w *fdWalker) stmtN(st ast.Stmt, chain []fdCond) (dead bool, guards []fdCon
 				w.sitesIn(e, chain)
 			}
 			w.emitCond(k, cc.Pos())
+			w.facts = f0.clone()
 			w.stmts(cc.Body, fdWith(chain, k))
 		}
+		w.facts = f0.clone()
+		w.facts.killWritten(w, s.Body)
 	case *ast.TypeSwitchStmt:
 		if s.Init != nil {
 			w.stmt(s.Init, chain)
@@ -1192,6 +1570,10 @@ func (w *fdWalker) stmtN(st ast.Stmt, chain []fdCond) (dead bool, guards []fdCon
 		case *ast.ExprStmt:
 			x = a.X
 		}
+		f0 := w.facts
+		w.loops = append(w.loops, &fdLoop{label: w.label})
+		w.label = ""
+		defer func(n int) { w.loops = w.loops[:n] }(len(w.loops) - 1)
 		for _, cl := range s.Body.List {
 			cc := cl.(*ast.CaseClause)
 			k := fdCond{pre: "tsw(", exprs: []ast.Expr{x}, sep: []string{")∈{"}}
@@ -1207,8 +1589,11 @@ func (w *fdWalker) stmtN(st ast.Stmt, chain []fdCond) (dead bool, guards []fdCon
 				}
 			}
 			w.emitCond(k, cc.Pos())
+			w.facts = f0.clone()
 			w.stmts(cc.Body, fdWith(chain, k))
 		}
+		w.facts = f0.clone()
+		w.facts.killWritten(w, s.Body)
 	case *ast.ReturnStmt:
 		w.sitesIn(st, chain)
 		if len(s.Results) > 0 {
@@ -1218,11 +1603,268 @@ func (w *fdWalker) stmtN(st ast.Stmt, chain []fdCond) (dead bool, guards []fdCon
 			// what makes `if err != nil { return }` a propagation site
 			w.emit("ret", func(c *fdCtx) string { return "·" }, chain, s.Pos())
 		}
+	case *ast.AssignStmt:
+		// the copy-out / copy-back pair of an expanded helper call
+		if rg := w.cbOf[s]; rg != nil && rg.entered {
+			return false, nil // the targets were assigned where the body left
+		}
+		if rg := w.exitOf[s]; rg != nil && rg.entered {
+			if x := rg.exitAssign(s); x != nil {
+				w.sitesIn(x, chain)
+				w.assignItem(x)
+				w.facts.effects(w, x)
+			}
+			return false, nil
+		}
+		if red, changed := w.dropSelfPairs(s); changed {
+			if red == nil {
+				return false, nil
+			}
+			st = red
+		}
+		w.sitesIn(st, chain)
+		w.assignItem(st)
+		w.facts.effects(w, st)
 	default:
 		w.sitesIn(st, chain)
 		w.assignItem(st)
+		w.facts.effects(w, st)
 	}
 	return false, nil
+}
+
+// ---- range over an integer ------------------------------------------------------------
+//
+// `for i := range n` runs its body for i = 0 … n-1 with n evaluated once; it is the
+// counting loop `for i := 0; i < n; i++` when the body does not write i (a write
+// would move the three-clause loop but not the range loop) and n has the same
+// value every time it is evaluated (no operand of n is written in the loop, n calls
+// nothing but len / cap / conversions and niladic methods of reflect.Type, whose
+// values are immutable).  Such a loop is walked in its three-clause form.
+
+func (w *fdWalker) rangeIntAsFor(s *ast.RangeStmt) *ast.ForStmt {
+	info := w.s.pkg.TypesInfo
+	tv, ok := info.Types[s.X]
+	if !ok || tv.Type == nil || s.Value != nil {
+		return nil
+	}
+	if b, ok := tv.Type.Underlying().(*types.Basic); !ok || b.Info()&types.IsInteger == 0 {
+		return nil
+	}
+	var key *ast.Ident
+	if s.Key != nil {
+		id, ok := s.Key.(*ast.Ident)
+		if !ok || s.Tok != token.DEFINE {
+			return nil
+		}
+		if id.Name != "_" {
+			key = id
+		}
+	}
+	written := fdWrittenIn(s.Body, info)
+	taken := fdWrittenIn(w.fd.Body, info).addr
+	if key != nil {
+		if o := info.Defs[key]; o == nil || written.any(o) {
+			return nil
+		}
+	}
+	if !w.invariant(s.X, written, taken, 0) {
+		return nil
+	}
+	if key == nil {
+		key = ast.NewIdent("·i")
+		key.NamePos = s.For
+		if w.s.synth == nil {
+			w.s.synth = map[*ast.Ident]types.Object{}
+		}
+		w.s.synth[key] = types.NewVar(s.For, w.s.pkg.Types, "·i", tv.Type)
+	}
+	return &ast.ForStmt{
+		For:  s.For,
+		Init: &ast.AssignStmt{Lhs: []ast.Expr{key}, TokPos: s.For, Tok: token.DEFINE, Rhs: []ast.Expr{&ast.BasicLit{ValuePos: s.For, Kind: token.INT, Value: "0"}}},
+		Cond: &ast.BinaryExpr{X: key, OpPos: s.X.Pos(), Op: token.LSS, Y: s.X},
+		Post: &ast.IncDecStmt{X: key, TokPos: s.For, Tok: token.INC},
+		Body: s.Body,
+	}
+}
+
+// fdWrites: the variables a piece of code may write: assigned / incremented /
+// declared (asg) and those whose address is taken (addr), at any depth.
+type fdWrites struct{ asg, addr map[types.Object]bool }
+
+func (f fdWrites) any(o types.Object) bool { return f.asg[o] || f.addr[o] }
+
+func fdWrittenIn(n ast.Node, info *types.Info) fdWrites {
+	out := fdWrites{map[types.Object]bool{}, map[types.Object]bool{}}
+	var base func(e ast.Expr) types.Object
+	base = func(e ast.Expr) types.Object {
+		switch e := e.(type) {
+		case *ast.Ident:
+			if o := info.Defs[e]; o != nil {
+				return o
+			}
+			return info.Uses[e]
+		case *ast.ParenExpr:
+			return base(e.X)
+		case *ast.SelectorExpr:
+			if _, isField := info.Uses[e.Sel].(*types.Var); isField {
+				return base(e.X)
+			}
+		case *ast.IndexExpr:
+			return base(e.X)
+		case *ast.StarExpr:
+			return base(e.X)
+		case *ast.SliceExpr:
+			return base(e.X)
+		}
+		return nil
+	}
+	if n == nil {
+		return out
+	}
+	ast.Inspect(n, func(x ast.Node) bool {
+		switch x := x.(type) {
+		case *ast.AssignStmt:
+			for _, l := range x.Lhs {
+				if o := base(l); o != nil {
+					out.asg[o] = true
+				}
+			}
+		case *ast.IncDecStmt:
+			if o := base(x.X); o != nil {
+				out.asg[o] = true
+			}
+		case *ast.RangeStmt:
+			for _, e := range []ast.Expr{x.Key, x.Value} {
+				if e != nil {
+					if o := base(e); o != nil {
+						out.asg[o] = true
+					}
+				}
+			}
+		case *ast.ValueSpec:
+			for _, id := range x.Names {
+				if o := info.Defs[id]; o != nil {
+					out.asg[o] = true
+				}
+			}
+		case *ast.UnaryExpr:
+			if x.Op == token.AND {
+				if o := base(x.X); o != nil {
+					out.addr[o] = true
+				}
+			}
+		case *ast.SliceExpr:
+			// slicing an array takes its address
+			if tv, ok := info.Types[x.X]; ok && tv.Type != nil {
+				if _, isArr := tv.Type.Underlying().(*types.Array); isArr {
+					if o := base(x.X); o != nil {
+						out.addr[o] = true
+					}
+				}
+			}
+		case *ast.CallExpr:
+			// a method with a pointer receiver called on an addressable variable takes its address
+			if sel, ok := fdUnparen(x.Fun).(*ast.SelectorExpr); ok {
+				if sl := info.Selections[sel]; sl != nil && sl.Kind() == types.MethodVal {
+					if sig, ok := sl.Obj().Type().(*types.Signature); ok && sig.Recv() != nil {
+						_, wantPtr := sig.Recv().Type().(*types.Pointer)
+						_, havePtr := sl.Recv().Underlying().(*types.Pointer)
+						if wantPtr && !havePtr {
+							if o := base(sel.X); o != nil {
+								out.addr[o] = true
+							}
+						}
+					}
+				}
+			}
+		}
+		return true
+	})
+	return out
+}
+
+// invariant: evaluating e again gives the same value as long as none of the
+// variables in `written` is written: e is built from constants, local variables and
+// parameters that are neither written there nor address-taken anywhere in the
+// function, arithmetic, conversions, len / cap of slices and strings, and niladic
+// methods of reflect.Type.
+func (w *fdWalker) invariant(e ast.Expr, written fdWrites, taken map[types.Object]bool, depth int) bool {
+	info := w.s.pkg.TypesInfo
+	if depth > 10 {
+		return false
+	}
+	if tv, ok := info.Types[e]; ok && tv.Value != nil {
+		return true
+	}
+	switch e := e.(type) {
+	case *ast.ParenExpr:
+		return w.invariant(e.X, written, taken, depth+1)
+	case *ast.BasicLit:
+		return true
+	case *ast.Ident:
+		v, ok := info.Uses[e].(*types.Var)
+		if !ok || v.IsField() || v.Pkg() == nil || v.Parent() == v.Pkg().Scope() {
+			return false
+		}
+		return !written.any(v) && !taken[v]
+	case *ast.BinaryExpr:
+		switch e.Op {
+		case token.ADD, token.SUB, token.MUL, token.AND, token.OR, token.XOR, token.AND_NOT:
+			return w.invariant(e.X, written, taken, depth+1) && w.invariant(e.Y, written, taken, depth+1)
+		}
+	case *ast.UnaryExpr:
+		if e.Op == token.SUB || e.Op == token.ADD || e.Op == token.XOR {
+			return w.invariant(e.X, written, taken, depth+1)
+		}
+	case *ast.CallExpr:
+		if e.Ellipsis.IsValid() {
+			return false
+		}
+		fun := fdUnparen(e.Fun)
+		if tv, ok := info.Types[fun]; ok && tv.IsType() && len(e.Args) == 1 {
+			// conversion between integer types
+			if b, ok := tv.Type.Underlying().(*types.Basic); ok && b.Info()&types.IsInteger != 0 {
+				if at, ok := info.Types[e.Args[0]]; ok && at.Type != nil {
+					if ab, ok := at.Type.Underlying().(*types.Basic); ok && ab.Info()&types.IsInteger != 0 {
+						return w.invariant(e.Args[0], written, taken, depth+1)
+					}
+				}
+			}
+			return false
+		}
+		switch f := fun.(type) {
+		case *ast.Ident:
+			if b, ok := info.Uses[f].(*types.Builtin); ok && (b.Name() == "len" || b.Name() == "cap") && len(e.Args) == 1 {
+				if at, ok := info.Types[e.Args[0]]; ok && at.Type != nil {
+					switch u := at.Type.Underlying().(type) {
+					case *types.Slice:
+						return w.invariant(e.Args[0], written, taken, depth+1)
+					case *types.Basic:
+						return u.Info()&types.IsString != 0 && w.invariant(e.Args[0], written, taken, depth+1)
+					}
+				}
+			}
+		case *ast.SelectorExpr:
+			if len(e.Args) != 0 {
+				return false
+			}
+			fn, ok := info.Uses[f.Sel].(*types.Func)
+			if !ok {
+				return false
+			}
+			rt, ok := info.Types[f.X]
+			if !ok || rt.Type == nil {
+				return false
+			}
+			if n, ok := rt.Type.(*types.Named); !ok || n.Obj().Pkg() == nil || n.Obj().Pkg().Path() != "reflect" || n.Obj().Name() != "Type" {
+				return false
+			}
+			_ = fn
+			return w.invariant(f.X, written, taken, depth+1)
+		}
+	}
+	return false
 }
 
 // ---- driver ---------------------------------------------------------------------
@@ -1240,6 +1882,12 @@ type fdResult struct {
 	ItemsOnlyFork, ItemsOnlyUp []fdSite
 	ItemsMatched               int
 	UpstreamDir                string
+	// functions compared against upstream's function without the parameters that
+	// every upstream caller derives from another parameter
+	Derived []string
+	// package-level variables of the fork that upstream has under another name
+	// (fork name -> upstream name), matched by definition
+	Renamed map[string]string
 }
 
 // ForkDiff compares the fork package with the upstream package.
@@ -1253,10 +1901,16 @@ func ForkDiff(fork, up *packages.Package, files map[string]bool, laxObjs map[typ
 		}
 	}
 	res := &fdResult{}
+	fs.rename = fdMatchPkgVars(fs, us)
+	res.Renamed = map[string]string{}
+	for o, n := range fs.rename {
+		res.Renamed[o.Name()] = n
+	}
 	if len(up.GoFiles) > 0 {
 		res.UpstreamDir = up.GoFiles[0][:strings.LastIndex(up.GoFiles[0], "/")]
 	}
 	align := map[string][]int{}
+	derived := map[string]map[int]fdDerived{} // upstream parameters read as Pj.M()
 	for _, k := range keysOf(fs.funcs) {
 		fd := fs.funcs[k]
 		fo, _ := fork.TypesInfo.Defs[fd.Name].(*types.Func)
@@ -1278,6 +1932,21 @@ func ForkDiff(fork, up *packages.Package, files map[string]bool, laxObjs map[typ
 			continue
 		}
 		m, ok := fdAlign(fo.Type().(*types.Signature), uo.Type().(*types.Signature))
+		if !ok {
+			// upstream's list without the parameters every caller derives from another one
+			if der := fdDerivedParams(us, uo, ud); len(der) > 0 {
+				skip := map[int]bool{}
+				for i := range der {
+					skip[i] = true
+				}
+				if m2, ok2 := fdAlignSkip(fo.Type().(*types.Signature), uo.Type().(*types.Signature), skip); ok2 {
+					m, ok = m2, true
+					derived[k] = der
+					us.dropArgs[uo] = skip
+					res.Derived = append(res.Derived, k)
+				}
+			}
+		}
 		if !ok {
 			res.SigMismatch = append(res.SigMismatch, k)
 		}
@@ -1322,12 +1991,29 @@ func ForkDiff(fork, up *packages.Package, files map[string]bool, laxObjs map[typ
 		if sig.Recv() != nil {
 			params[sig.Recv()] = "RCV"
 		}
-		w := &fdWalker{s: s, fn: k, hasResults: sig.Results().Len() > 0}
+		if !s.fork {
+			for i, d := range derived[k] {
+				params[sig.Params().At(i)] = fmt.Sprintf("P%d.%s()", d.from, d.method)
+			}
+		}
+		w := &fdWalker{s: s, fd: fd, fn: k, hasResults: sig.Results().Len() > 0}
 		inl := fdSingleDefs(fd, s.pkg.TypesInfo, s.extraFields)
+		w.prepare(fd, inl)
 		w.ctx = func() *fdCtx {
-			return &fdCtx{s: s, params: params, locals: map[types.Object]string{}, inline: inl, busy: map[types.Object]bool{}}
+			return &fdCtx{s: s, params: params, locals: map[types.Object]string{}, inline: inl, busy: map[types.Object]bool{}, w: w}
 		}
 		w.tracked = fdTracked(fd, s.pkg.TypesInfo, sig, inl)
+		for o, m := range w.merge {
+			if w.tracked[o] || w.tracked[m] {
+				w.tracked[o], w.tracked[m] = true, true
+			}
+		}
+		// named results start out zero
+		for i := 0; i < sig.Results().Len(); i++ {
+			if r := sig.Results().At(i); r.Name() != "" && r.Name() != "_" && !w.noFacts[r] {
+				w.facts.set(fdPath{o: r}, 'z')
+			}
+		}
 		w.stmts(fd.Body.List, nil)
 		return w.sites, w.items
 	}
@@ -1381,6 +2067,191 @@ func ForkDiff(fork, up *packages.Package, files map[string]bool, laxObjs map[typ
 	sort.Strings(res.FuncsOnlyFork)
 	sort.Strings(res.FuncsOnlyUp)
 	return res
+}
+
+// ---- package-level variables under another name ----------------------------------------
+//
+// Identifiers of package-level variables are compared by name.  An unexported
+// variable of the fork that upstream does not have is read as upstream's variable U
+// when both are defined once and for all (initialised at their declaration, never
+// assigned and never address-taken anywhere in their package), have the same type
+// and the same definition — the same initialiser in normal form, or both the
+// reflect.Type of the same type (reflect.TypeOf(<value of static type T>) and
+// reflect.TypeFor[T]() are both T's descriptor) — and the pairing is unique in
+// both directions among the variables without a namesake.
+
+type fdPkgVar struct {
+	obj types.Object
+	def string
+}
+
+func fdPkgVars(s *fdSide) []fdPkgVar {
+	info := s.pkg.TypesInfo
+	inits := map[types.Object]ast.Expr{}
+	for _, f := range s.pkg.Syntax {
+		for _, d := range f.Decls {
+			gd, ok := d.(*ast.GenDecl)
+			if !ok || gd.Tok != token.VAR {
+				continue
+			}
+			for _, sp := range gd.Specs {
+				vs := sp.(*ast.ValueSpec)
+				if len(vs.Values) != len(vs.Names) {
+					continue
+				}
+				for i, id := range vs.Names {
+					if o := info.Defs[id]; o != nil && id.Name != "_" {
+						inits[o] = vs.Values[i]
+					}
+				}
+			}
+		}
+	}
+	// assignments, inc/dec, range targets and address-taking (explicit, by slicing an
+	// array, by calling a pointer-receiver method) anywhere in the package disqualify
+	mutable := map[types.Object]bool{}
+	for _, f := range s.pkg.Syntax {
+		for o := range fdWrittenIn(f, info).addr {
+			mutable[o] = true
+		}
+	}
+	for _, f := range s.pkg.Syntax {
+		for _, d := range f.Decls {
+			fd, ok := d.(*ast.FuncDecl)
+			if !ok || fd.Body == nil {
+				continue
+			}
+			ast.Inspect(fd.Body, func(n ast.Node) bool {
+				switch x := n.(type) {
+				case *ast.AssignStmt:
+					if x.Tok == token.DEFINE {
+						return true
+					}
+					for _, l := range x.Lhs {
+						if o := fdBaseObj(l, info); o != nil {
+							mutable[o] = true
+						}
+					}
+				case *ast.IncDecStmt:
+					if o := fdBaseObj(x.X, info); o != nil {
+						mutable[o] = true
+					}
+				case *ast.RangeStmt:
+					if x.Tok == token.ASSIGN {
+						for _, e := range []ast.Expr{x.Key, x.Value} {
+							if e != nil {
+								if o := fdBaseObj(e, info); o != nil {
+									mutable[o] = true
+								}
+							}
+						}
+					}
+				case *ast.UnaryExpr:
+					if x.Op == token.AND {
+						if o := fdBaseObj(x.X, info); o != nil {
+							mutable[o] = true
+						}
+					}
+				}
+				return true
+			})
+		}
+	}
+	qual := func(p *types.Package) string {
+		if p == s.pkg.Types {
+			return ""
+		}
+		return p.Path()
+	}
+	var out []fdPkgVar
+	for o, init := range inits {
+		if o.Exported() || mutable[o] || o.Parent() != s.pkg.Types.Scope() {
+			continue
+		}
+		def := ""
+		if call, ok := fdUnparen(init).(*ast.CallExpr); ok {
+			fun := fdUnparen(call.Fun)
+			var targs []ast.Expr
+			switch ix := fun.(type) {
+			case *ast.IndexExpr:
+				fun, targs = fdUnparen(ix.X), []ast.Expr{ix.Index}
+			}
+			if sel, ok := fun.(*ast.SelectorExpr); ok {
+				if fn, ok := info.Uses[sel.Sel].(*types.Func); ok && fn.Pkg() != nil && fn.Pkg().Path() == "reflect" {
+					switch {
+					case fn.Name() == "TypeOf" && len(call.Args) == 1 && len(targs) == 0:
+						if tv, ok := info.Types[call.Args[0]]; ok && tv.Type != nil && !tv.IsNil() {
+							if _, isIface := tv.Type.Underlying().(*types.Interface); !isIface {
+								def = "reflect.Type of " + types.TypeString(types.Default(tv.Type), qual)
+							}
+						}
+					case fn.Name() == "TypeFor" && len(call.Args) == 0 && len(targs) == 1:
+						if tv, ok := info.Types[targs[0]]; ok && tv.IsType() {
+							def = "reflect.Type of " + types.TypeString(tv.Type, qual)
+						}
+					}
+				}
+			}
+		}
+		if def == "" {
+			c := &fdCtx{s: s, params: map[types.Object]string{}, locals: map[types.Object]string{}, busy: map[types.Object]bool{}, canon: true}
+			def = "= " + fdRenumber(c.expr(init))
+		}
+		out = append(out, fdPkgVar{o, types.TypeString(o.Type(), qual) + " " + def})
+	}
+	return out
+}
+
+func fdBaseObj(e ast.Expr, info *types.Info) types.Object {
+	for {
+		switch x := e.(type) {
+		case *ast.Ident:
+			return info.Uses[x]
+		case *ast.ParenExpr:
+			e = x.X
+		case *ast.SelectorExpr:
+			if _, isPkg := info.Uses[fdIdentOf(x.X)].(*types.PkgName); isPkg {
+				return info.Uses[x.Sel]
+			}
+			e = x.X
+		case *ast.IndexExpr:
+			e = x.X
+		case *ast.StarExpr:
+			e = x.X
+		case *ast.SliceExpr:
+			e = x.X
+		default:
+			return nil
+		}
+	}
+}
+
+func fdIdentOf(e ast.Expr) *ast.Ident {
+	id, _ := fdUnparen(e).(*ast.Ident)
+	return id
+}
+
+// fdMatchPkgVars pairs the fork's package-level variables that have no namesake
+// upstream with upstream's that have no namesake in the fork, by definition.
+func fdMatchPkgVars(fs, us *fdSide) map[types.Object]string {
+	byDef := func(s, other *fdSide) map[string][]types.Object {
+		m := map[string][]types.Object{}
+		for _, v := range fdPkgVars(s) {
+			if other.pkg.Types.Scope().Lookup(v.obj.Name()) != nil {
+				continue // the name means something on the other side: compared by name
+			}
+			m[v.def] = append(m[v.def], v.obj)
+		}
+		return m
+	}
+	f, u := byDef(fs, us), byDef(us, fs)
+	out := map[types.Object]string{}
+	for def, fo := range f {
+		if uo := u[def]; len(fo) == 1 && len(uo) == 1 {
+			out[fo[0]] = uo[0].Name()
+		}
+	}
+	return out
 }
 
 // fdReferenced reports whether the function can be reached at all: it is
@@ -1561,4 +2432,1147 @@ func fdExtraFields(a, b *packages.Package) map[types.Object]bool {
 func fdIsStructType(t types.Type) bool {
 	_, ok := t.Underlying().(*types.Struct)
 	return ok
+}
+
+// ---- expanded helper calls ------------------------------------------------------------
+//
+// The source normaliser (inline.go) expands calls of helpers the rule tables do
+// not know.  The expansion of `T1, …, Tn = f(args)` is
+//
+//	var r1 …; var rn …
+//	L: for { <parameters>; var x1 …; var xn … (named results); <body, each
+//	         `return e1, …, en` written `r1, …, rn = e1, …, en; break L`>; break L }
+//	T1, …, Tn = r1, …, rn
+//
+// (a plain block without loop and label when the body has no early return).  Upstream
+// has the statements of the body in the function itself.  The walker reads the
+// expansion as exactly that, where it is exact:
+//
+//   - a labelled `for` without clauses whose body cannot reach its end or continue it
+//     runs once: it is its body, and each `break L` is followed by what follows the
+//     block (walked in place of the break, with the conditions of the break; done
+//     when what follows leaves the function, or when no `break L` sits in a nested
+//     loop / switch);
+//   - result temporaries r that are written only by the copy-out assignments next to
+//     the breaks and read only by the copy-back are gone: each copy-out assigns the
+//     targets T directly, the copy-back is dropped;
+//   - when every copy-out takes r_i from one and the same variable x_i of the block
+//     (the helper's named result), the target T_i is a local variable or a field of a
+//     local struct that nothing else in the block mentions, and T_i holds x_i's
+//     initial value when the block is entered (T_i is still zero there — decided by
+//     the nil / zero facts below — or the block starts with x_i = T_i), then x_i and
+//     T_i are the same storage for the whole block: x_i reads as T_i;
+//   - variables declared with a value by two such blocks under the same name and
+//     type have disjoint lifetimes: they read as one variable (upstream's `b`, that
+//     both halves of the function use);
+//   - `if v != nil` / `if v == nil` is decided where the statements before it fix the
+//     outcome (v was assigned nil, a composite literal, errors.New(…); a guard
+//     `if v != nil { …return }` was passed; v is a named result nobody has assigned):
+//     the test the caller applied to the helper's error after each of its returns.
+//
+// Everything here is a semantics-preserving reading; where a condition fails the
+// statements are walked as they stand (and then differ from upstream: undecided).
+
+type fdOnce struct {
+	label  string
+	body   []ast.Stmt
+	inLoop bool // some `break L` sits inside a nested loop / switch / select
+}
+
+type fdRegion struct {
+	stmt    ast.Stmt // the once-block, the plain block, or (spliced body) the copy-out itself
+	label   string
+	body    []ast.Stmt
+	cb      *ast.AssignStmt
+	temps   []types.Object
+	exits   []*ast.AssignStmt
+	same    []bool         // decided on entry: x_i is T_i
+	xs      []types.Object // the aliased x_i of the current visit
+	entered bool
+}
+
+type fdFrame struct {
+	label string
+	cont  []ast.Stmt
+	outs  []*fdState // states in which a copy of cont reached its end
+}
+
+// fdLoop: an enclosing loop (or switch, isLoop false) during the walk, with the
+// states in which its continue / break statements were reached.
+type fdLoop struct {
+	label       string
+	isLoop      bool
+	conts, brks []*fdState
+}
+
+func fdSameState(a, b *fdState) bool {
+	if a == nil || b == nil {
+		return a == b
+	}
+	if len(a.m) != len(b.m) {
+		return false
+	}
+	for k, v := range a.m {
+		if b.m[k] != v {
+			return false
+		}
+	}
+	return true
+}
+
+// loopHead computes the facts that hold whenever the loop head is reached: the
+// greatest state below the entry state that the body (pass, walked without
+// emitting anything; post is applied to the states that reach the end of the body or
+// a continue) maps into itself.  Falls back to forgetting everything the loop
+// writes when the iteration does not settle.
+func (w *fdWalker) loopHead(label string, loop ast.Node, pass func() *fdState, post func(*fdState) *fdState) *fdState {
+	entry := w.facts.clone()
+	if entry == nil {
+		return nil
+	}
+	head := entry.clone()
+	loops, frames := w.loops, w.frames
+	defer func() { w.loops, w.frames = loops, frames }()
+	for iter := 0; iter < 16; iter++ {
+		lp := &fdLoop{label: label, isLoop: true}
+		w.loops = append(loops[:len(loops):len(loops)], lp)
+		w.facts = head.clone()
+		w.dry++
+		end := pass()
+		w.dry--
+		backs := lp.conts
+		if end != nil {
+			backs = append(backs, end)
+		}
+		next := entry.clone()
+		if len(backs) > 0 {
+			if b := post(fdJoinAll(backs)); b != nil {
+				next = fdJoin(entry, b)
+			}
+		}
+		next = fdJoin(next, head) // never grow: the iteration descends
+		if fdSameState(next, head) {
+			w.facts = entry
+			return head
+		}
+		head = next
+	}
+	coarse := entry.clone()
+	coarse.killWritten(w, loop)
+	w.facts = entry
+	return coarse
+}
+
+// fdEachList calls f for every statement list below n (blocks, case and comm clauses).
+func fdEachList(n ast.Node, f func(list []ast.Stmt)) {
+	ast.Inspect(n, func(x ast.Node) bool {
+		switch x := x.(type) {
+		case *ast.BlockStmt:
+			f(x.List)
+		case *ast.CaseClause:
+			f(x.Body)
+		case *ast.CommClause:
+			f(x.Body)
+		}
+		return true
+	})
+}
+
+// fdOnceBlock recognises `L: for { … }` whose body runs at most once.
+func fdOnceBlock(ls *ast.LabeledStmt) *fdOnce {
+	fs, ok := ls.Stmt.(*ast.ForStmt)
+	if !ok || fs.Init != nil || fs.Cond != nil || fs.Post != nil || !fdTerminates(fs.Body.List) {
+		return nil
+	}
+	ob := &fdOnce{label: ls.Label.Name, body: fs.Body.List}
+	ok = true
+	// loop: inside a nested loop (an unlabelled continue refers to that one);
+	// brk: inside a nested loop / switch / select (an unlabelled break refers to that one)
+	var visit func(n ast.Node, loop, brk bool)
+	visit = func(n ast.Node, loop, brk bool) {
+		ast.Inspect(n, func(x ast.Node) bool {
+			if !ok || x == nil {
+				return false
+			}
+			switch x := x.(type) {
+			case *ast.FuncLit:
+				return false
+			case *ast.ForStmt, *ast.RangeStmt:
+				if x != n {
+					visit(x, true, true)
+					return false
+				}
+			case *ast.SwitchStmt, *ast.TypeSwitchStmt, *ast.SelectStmt:
+				if x != n {
+					visit(x, loop, true)
+					return false
+				}
+			case *ast.BranchStmt:
+				switch {
+				case x.Tok == token.GOTO:
+					ok = false
+				case x.Label != nil && x.Label.Name == ob.label:
+					if x.Tok != token.BREAK {
+						ok = false // continue L
+					} else if brk {
+						ob.inLoop = true
+					}
+				case x.Label == nil && x.Tok == token.BREAK && !brk, x.Label == nil && x.Tok == token.CONTINUE && !loop:
+					ok = false // refers to the loop itself
+				}
+			}
+			return true
+		})
+	}
+	visit(fs.Body, false, false)
+	if !ok {
+		return nil
+	}
+	return ob
+}
+
+// prepare finds the once-blocks, the copy-out / copy-back regions and the
+// variables to merge in fd, and takes the variables involved out of the
+// single-definition table.
+func (w *fdWalker) prepare(fd *ast.FuncDecl, inl map[types.Object]ast.Expr) {
+	info := w.s.pkg.TypesInfo
+	w.merge, w.alias = map[types.Object]types.Object{}, map[types.Object]ast.Expr{}
+	w.once, w.regionAt = map[*ast.LabeledStmt]*fdOnce{}, map[ast.Stmt]*fdRegion{}
+	w.cbOf, w.exitOf = map[*ast.AssignStmt]*fdRegion{}, map[*ast.AssignStmt]*fdRegion{}
+	w.noFacts = map[types.Object]bool{}
+	for o := range fdWrittenIn(fd.Body, info).addr {
+		w.noFacts[o] = true
+	}
+	hasGoto := false
+	ast.Inspect(fd.Body, func(n ast.Node) bool {
+		switch x := n.(type) {
+		case *ast.BranchStmt:
+			hasGoto = hasGoto || x.Tok == token.GOTO
+		case *ast.FuncLit:
+			ast.Inspect(x, func(m ast.Node) bool {
+				if id, ok := m.(*ast.Ident); ok {
+					if o := info.Uses[id]; o != nil {
+						w.noFacts[o] = true
+					}
+				}
+				return true
+			})
+		}
+		return true
+	})
+	w.facts = &fdState{m: map[fdPath]byte{}}
+	if hasGoto {
+		w.facts = nil
+		return
+	}
+	// variables declared without a value, all uses of local variables, blank reads
+	noValue := map[types.Object]bool{}
+	uses := map[types.Object][]*ast.Ident{}
+	blank := map[*ast.Ident]bool{} // the x of `_ = x`
+	ast.Inspect(fd.Body, func(n ast.Node) bool {
+		switch x := n.(type) {
+		case *ast.ValueSpec:
+			if len(x.Values) == 0 {
+				for _, id := range x.Names {
+					if o := info.Defs[id]; o != nil {
+						noValue[o] = true
+					}
+				}
+			}
+		case *ast.Ident:
+			if o, ok := info.Uses[x].(*types.Var); ok && !o.IsField() {
+				uses[o] = append(uses[o], x)
+			}
+		case *ast.AssignStmt:
+			if len(x.Lhs) == 1 && len(x.Rhs) == 1 && x.Tok == token.ASSIGN {
+				if l, ok := x.Lhs[0].(*ast.Ident); ok && l.Name == "_" {
+					if r, ok := x.Rhs[0].(*ast.Ident); ok {
+						blank[r] = true
+					}
+				}
+			}
+		}
+		return true
+	})
+	var regions []*fdRegion
+	fdEachList(fd.Body, func(list []ast.Stmt) {
+		for i, st := range list {
+			if ls, ok := st.(*ast.LabeledStmt); ok {
+				if ob := fdOnceBlock(ls); ob != nil {
+					w.once[ls] = ob
+				}
+			}
+			if i+1 >= len(list) {
+				continue
+			}
+			cb, ok := list[i+1].(*ast.AssignStmt)
+			if !ok || len(cb.Lhs) != len(cb.Rhs) || (cb.Tok != token.ASSIGN && cb.Tok != token.DEFINE) {
+				continue
+			}
+			rg := &fdRegion{stmt: st, cb: cb}
+			seen := map[types.Object]bool{}
+			for _, r := range cb.Rhs {
+				id, ok := r.(*ast.Ident)
+				if !ok {
+					rg = nil
+					break
+				}
+				o, ok := info.Uses[id].(*types.Var)
+				if !ok || !noValue[o] || seen[o] || w.noFacts[o] {
+					rg = nil
+					break
+				}
+				seen[o] = true
+				rg.temps = append(rg.temps, o)
+			}
+			if rg == nil || len(rg.temps) == 0 {
+				continue
+			}
+			switch x := st.(type) {
+			case *ast.LabeledStmt:
+				ob := w.once[x]
+				if ob == nil {
+					continue
+				}
+				rg.label, rg.body = ob.label, ob.body
+			case *ast.BlockStmt:
+				rg.body = x.List
+			case *ast.AssignStmt:
+			default:
+				continue
+			}
+			// the copy-outs: assignments r1, …, rn = e1, …, en inside the region
+			isExit := func(a *ast.AssignStmt) bool {
+				if a.Tok != token.ASSIGN || len(a.Lhs) != len(rg.temps) || len(a.Rhs) != len(a.Lhs) {
+					return false
+				}
+				for j, l := range a.Lhs {
+					id, ok := l.(*ast.Ident)
+					if !ok || info.Uses[id] != rg.temps[j] {
+						return false
+					}
+				}
+				return true
+			}
+			okRegion := true
+			if a, ok := st.(*ast.AssignStmt); ok {
+				if isExit(a) {
+					rg.exits = []*ast.AssignStmt{a}
+				}
+			} else {
+				fdEachList(st, func(l2 []ast.Stmt) {
+					for j, s2 := range l2 {
+						a, ok := s2.(*ast.AssignStmt)
+						if !ok || !isExit(a) {
+							continue
+						}
+						rg.exits = append(rg.exits, a)
+						if rg.label != "" {
+							// followed by `break L`
+							br, ok := (ast.Stmt)(nil), false
+							if j+1 < len(l2) {
+								br = l2[j+1]
+							}
+							b, ok := br.(*ast.BranchStmt)
+							if !ok || b.Tok != token.BREAK || b.Label == nil || b.Label.Name != rg.label {
+								okRegion = false
+							}
+						}
+					}
+				})
+				if rg.label == "" {
+					// a plain block: one copy-out, the last thing the block does
+					last := st
+					for {
+						b, ok := last.(*ast.BlockStmt)
+						if !ok || len(b.List) == 0 {
+							break
+						}
+						last = b.List[len(b.List)-1]
+					}
+					if len(rg.exits) != 1 || last != ast.Stmt(rg.exits[0]) {
+						okRegion = false
+					}
+				}
+			}
+			if !okRegion || len(rg.exits) == 0 {
+				continue
+			}
+			// the temporaries are used by the copy-outs, the copy-back and `_ = r` only
+			allowed := map[*ast.Ident]bool{}
+			for _, r := range cb.Rhs {
+				allowed[r.(*ast.Ident)] = true
+			}
+			for _, a := range rg.exits {
+				for _, l := range a.Lhs {
+					allowed[l.(*ast.Ident)] = true
+				}
+			}
+			for _, o := range rg.temps {
+				for _, id := range uses[o] {
+					if !allowed[id] && !blank[id] {
+						okRegion = false
+					}
+				}
+			}
+			// the targets are evaluated where the body leaves instead of after the block:
+			// they must denote the same storage at both places
+			for _, l := range cb.Lhs {
+				if !w.stableTarget(l) {
+					okRegion = false
+				}
+			}
+			if !okRegion {
+				continue
+			}
+			regions = append(regions, rg)
+			w.regionAt[st], w.cbOf[cb] = rg, rg
+			for _, a := range rg.exits {
+				w.exitOf[a] = rg
+			}
+			// a variable the copy-back defines is assigned at every copy-out: not a single definition
+			for _, l := range cb.Lhs {
+				if id, ok := l.(*ast.Ident); ok {
+					if o := info.Defs[id]; o != nil {
+						delete(inl, o)
+					}
+				}
+			}
+		}
+	})
+	// variables declared with a value at the top level of two such blocks, same name and type
+	type key struct{ name, typ string }
+	first := map[key]types.Object{}
+	var blocks [][]ast.Stmt
+	for _, rg := range regions {
+		if rg.body != nil {
+			blocks = append(blocks, rg.body)
+		}
+	}
+	for ls, ob := range w.once {
+		if w.regionAt[ls] == nil {
+			blocks = append(blocks, ob.body)
+		}
+	}
+	sort.Slice(blocks, func(i, j int) bool {
+		if len(blocks[i]) == 0 || len(blocks[j]) == 0 {
+			return len(blocks[i]) < len(blocks[j])
+		}
+		return blocks[i][0].Pos() < blocks[j][0].Pos()
+	})
+	nested := func(a, b []ast.Stmt) bool { // b lies inside a
+		if len(a) == 0 || len(b) == 0 {
+			return true
+		}
+		return a[0].Pos() <= b[0].Pos() && b[len(b)-1].End() <= a[len(a)-1].End()
+	}
+	owner := map[types.Object][]ast.Stmt{}
+	for _, body := range blocks {
+		for _, st := range body {
+			var ids []*ast.Ident
+			switch x := st.(type) {
+			case *ast.AssignStmt:
+				if x.Tok == token.DEFINE && len(x.Lhs) == len(x.Rhs) {
+					for _, l := range x.Lhs {
+						if id, ok := l.(*ast.Ident); ok {
+							ids = append(ids, id)
+						}
+					}
+				}
+			case *ast.DeclStmt:
+				if gd, ok := x.Decl.(*ast.GenDecl); ok && gd.Tok == token.VAR {
+					for _, sp := range gd.Specs {
+						if vs := sp.(*ast.ValueSpec); len(vs.Values) == len(vs.Names) {
+							ids = append(ids, vs.Names...)
+						}
+					}
+				}
+			}
+			for _, id := range ids {
+				o := info.Defs[id]
+				if o == nil || id.Name == "_" || w.noFacts[o] {
+					continue
+				}
+				k := key{id.Name, types.TypeString(o.Type(), nil)}
+				f, ok := first[k]
+				if !ok {
+					first[k], owner[o] = o, body
+					continue
+				}
+				if f != o && !nested(owner[f], body) && !nested(body, owner[f]) {
+					w.merge[o] = f
+					delete(inl, o)
+					delete(inl, f)
+				}
+			}
+		}
+	}
+}
+
+// stableTarget: a local variable, or a field of a local struct variable — an
+// lvalue that denotes the same storage wherever in the function it is evaluated.
+func (w *fdWalker) stableTarget(e ast.Expr) bool {
+	info := w.s.pkg.TypesInfo
+	local := func(id *ast.Ident) bool {
+		if id.Name == "_" {
+			return true
+		}
+		o := info.Defs[id]
+		if o == nil {
+			o = info.Uses[id]
+		}
+		v, ok := o.(*types.Var)
+		return ok && !v.IsField() && v.Pkg() != nil && v.Parent() != v.Pkg().Scope() && !w.noFacts[v]
+	}
+	switch x := fdUnparen(e).(type) {
+	case *ast.Ident:
+		return local(x)
+	case *ast.SelectorExpr:
+		id, ok := fdUnparen(x.X).(*ast.Ident)
+		if !ok || !local(id) {
+			return false
+		}
+		if f, ok := info.Uses[x.Sel].(*types.Var); !ok || !f.IsField() {
+			return false
+		}
+		tv, ok := info.Types[x.X]
+		return ok && tv.Type != nil && fdIsStructType(tv.Type)
+	}
+	return false
+}
+
+// exitAssign is the copy-out a read as an assignment to the targets of the
+// copy-back (positions whose source is the target's own storage are dropped); nil
+// when nothing is left.
+func (rg *fdRegion) exitAssign(a *ast.AssignStmt) *ast.AssignStmt {
+	x := &ast.AssignStmt{TokPos: a.TokPos, Tok: token.ASSIGN}
+	for i := range a.Rhs {
+		if rg.same != nil && rg.same[i] {
+			continue
+		}
+		x.Lhs = append(x.Lhs, rg.cb.Lhs[i])
+		x.Rhs = append(x.Rhs, a.Rhs[i])
+	}
+	if len(x.Lhs) == 0 {
+		return nil
+	}
+	return x
+}
+
+// enterRegion decides, with the facts that hold on entry, which result variables
+// of the block are the storage of their targets, and installs the aliases.
+func (w *fdWalker) enterRegion(rg *fdRegion) {
+	// decided anew at every visit (the statements may be walked more than once: in place
+	// of several breaks, or for a loop's facts), with the facts of that visit
+	for _, x := range rg.xs {
+		delete(w.alias, x)
+	}
+	rg.xs = nil
+	rg.same = make([]bool, len(rg.temps))
+	rg.entered = w.dry == 0
+	if rg.body == nil || !rg.entered {
+		return // (walking for facts only: the statements are taken as they stand)
+	}
+	info := w.s.pkg.TypesInfo
+	// x_i: every copy-out takes r_i from the same variable declared (without value) by the block itself
+	declared := map[types.Object]bool{}
+	for _, st := range rg.body {
+		if ds, ok := st.(*ast.DeclStmt); ok {
+			if gd, ok := ds.Decl.(*ast.GenDecl); ok && gd.Tok == token.VAR {
+				for _, sp := range gd.Specs {
+					if vs := sp.(*ast.ValueSpec); len(vs.Values) == 0 {
+						for _, id := range vs.Names {
+							if o := info.Defs[id]; o != nil {
+								declared[o] = true
+							}
+						}
+					}
+				}
+			}
+		}
+	}
+	xs := make([]types.Object, len(rg.temps))
+	taken := map[types.Object]bool{}
+	for i := range rg.temps {
+		var x types.Object
+		for _, a := range rg.exits {
+			id, ok := fdUnparen(a.Rhs[i]).(*ast.Ident)
+			if !ok {
+				x = nil
+				break
+			}
+			o := info.Uses[id]
+			if o == nil || (x != nil && o != x) {
+				x = nil
+				break
+			}
+			x = o
+		}
+		if x != nil && declared[x] && !taken[x] && !w.noFacts[x] {
+			xs[i], taken[x] = x, true
+		}
+	}
+	// T_i: pairwise disjoint storage
+	paths := make([]fdPath, len(rg.temps))
+	okPath := make([]bool, len(rg.temps))
+	fresh := make([]bool, len(rg.temps))
+	for i, l := range rg.cb.Lhs {
+		if id, ok := fdUnparen(l).(*ast.Ident); ok && id.Name != "_" && info.Defs[id] != nil {
+			fresh[i] = true
+			paths[i], okPath[i] = fdPath{o: info.Defs[id]}, !w.noFacts[info.Defs[id]]
+			continue
+		}
+		paths[i], okPath[i] = w.path(l)
+	}
+	for i := range paths {
+		for j := range paths {
+			if i != j && okPath[i] && okPath[j] && paths[i].o == paths[j].o && (paths[i].f == paths[j].f || paths[i].f == "" || paths[j].f == "") {
+				okPath[i] = false
+			}
+		}
+	}
+	// mentions of the targets' variables inside the block: only `x_i = T_i` in the block's
+	// opening run of declarations, blank reads and such copies
+	base := map[types.Object]bool{}
+	for i := range paths {
+		if okPath[i] {
+			base[paths[i].o] = true
+		}
+	}
+	initFrom := make([]bool, len(rg.temps))
+	allowedUse := map[*ast.Ident]bool{}
+	opening := true
+	for _, st := range rg.body {
+		if !opening {
+			break
+		}
+		switch x := st.(type) {
+		case *ast.DeclStmt:
+		case *ast.AssignStmt:
+			if len(x.Lhs) != len(x.Rhs) || x.Tok != token.ASSIGN {
+				opening = false
+				break
+			}
+			if l, ok := x.Lhs[0].(*ast.Ident); ok && l.Name == "_" && len(x.Lhs) == 1 {
+				break // `_ = x`
+			}
+			// x_i = T_i, singly or as a tuple
+			var hits []int
+			for k, le := range x.Lhs {
+				l, ok := le.(*ast.Ident)
+				hit := -1
+				if ok {
+					for i := range xs {
+						if xs[i] != nil && info.Uses[l] == xs[i] && okPath[i] && !fresh[i] && !initFrom[i] {
+							if p, ok := w.path(x.Rhs[k]); ok && p == paths[i] {
+								hit = i
+							}
+						}
+					}
+				}
+				if hit < 0 {
+					hits = nil
+					break
+				}
+				hits = append(hits, hit)
+			}
+			if len(hits) != len(x.Lhs) {
+				opening = false
+				break
+			}
+			for k, i := range hits {
+				initFrom[i] = true
+				ast.Inspect(x.Rhs[k], func(n ast.Node) bool {
+					if id, ok := n.(*ast.Ident); ok {
+						allowedUse[id] = true
+					}
+					return true
+				})
+			}
+		default:
+			opening = false
+		}
+	}
+	mentioned := map[types.Object]bool{}
+	for _, st := range rg.body {
+		ast.Inspect(st, func(n ast.Node) bool {
+			if id, ok := n.(*ast.Ident); ok && !allowedUse[id] {
+				// (through merged variables and the aliases of enclosing expansions)
+				if p, ok := w.path(id); ok && base[p.o] {
+					mentioned[p.o] = true
+				}
+			}
+			return true
+		})
+	}
+	for i := range rg.temps {
+		if xs[i] == nil || !okPath[i] || mentioned[paths[i].o] {
+			continue
+		}
+		if !fresh[i] && !initFrom[i] && w.facts.get(paths[i]) != 'z' {
+			continue
+		}
+		if !types.Identical(xs[i].Type(), info.TypeOf(rg.cb.Lhs[i])) {
+			continue
+		}
+		rg.same[i] = true
+		w.alias[xs[i]] = rg.cb.Lhs[i]
+		rg.xs = append(rg.xs, xs[i])
+	}
+}
+
+// dropSelfPairs removes from an assignment the pairs `x = T` where x has been
+// identified with T (they copy a storage onto itself).  It returns the statement
+// that is left (nil: nothing) and whether anything was removed.
+func (w *fdWalker) dropSelfPairs(s *ast.AssignStmt) (*ast.AssignStmt, bool) {
+	if s.Tok != token.ASSIGN || len(s.Lhs) != len(s.Rhs) {
+		return s, false
+	}
+	var keep []int
+	for i, le := range s.Lhs {
+		self := false
+		if id, ok := le.(*ast.Ident); ok {
+			if _, aliased := w.alias[w.s.pkg.TypesInfo.Uses[id]]; aliased {
+				l, ok1 := w.path(le)
+				r, ok2 := w.path(s.Rhs[i])
+				self = ok1 && ok2 && l == r
+			}
+		}
+		if !self {
+			keep = append(keep, i)
+		}
+	}
+	switch {
+	case len(keep) == len(s.Lhs):
+		return s, false
+	case len(keep) == 0:
+		return nil, true
+	}
+	x := &ast.AssignStmt{TokPos: s.TokPos, Tok: s.Tok}
+	for _, i := range keep {
+		x.Lhs, x.Rhs = append(x.Lhs, s.Lhs[i]), append(x.Rhs, s.Rhs[i])
+	}
+	return x, true
+}
+
+// ---- nil / zero facts -----------------------------------------------------------------
+//
+// A small forward analysis over the statements in walking order: for local
+// variables (and first-level fields of local structs) that are neither
+// address-taken nor captured by a function literal, whether the value is known to
+// be the zero value ('z') or known to be non-nil ('n').  Joins keep what both
+// sides agree on; a loop or switch forgets what it writes.
+
+type fdPath struct {
+	o types.Object
+	f string
+}
+
+type fdState struct{ m map[fdPath]byte }
+
+func (f *fdState) clone() *fdState {
+	if f == nil {
+		return nil
+	}
+	n := &fdState{m: make(map[fdPath]byte, len(f.m))}
+	for k, v := range f.m {
+		n.m[k] = v
+	}
+	return n
+}
+
+func (f *fdState) get(p fdPath) byte {
+	if f == nil || p.o == nil {
+		return 0
+	}
+	if v, ok := f.m[p]; ok {
+		return v
+	}
+	if p.f != "" && f.m[fdPath{o: p.o}] == 'z' {
+		return 'z'
+	}
+	return 0
+}
+
+func (f *fdState) kill(o types.Object) {
+	if f == nil {
+		return
+	}
+	for k := range f.m {
+		if k.o == o {
+			delete(f.m, k)
+		}
+	}
+}
+
+func (f *fdState) set(p fdPath, v byte) {
+	if f == nil || p.o == nil {
+		return
+	}
+	if p.f == "" {
+		f.kill(p.o)
+		if v != 0 {
+			f.m[p] = v
+		}
+		return
+	}
+	whole := fdPath{o: p.o}
+	if f.m[whole] == 'z' {
+		if st, ok := p.o.Type().Underlying().(*types.Struct); ok {
+			for i := 0; i < st.NumFields(); i++ {
+				f.m[fdPath{p.o, st.Field(i).Name()}] = 'z'
+			}
+		}
+	}
+	delete(f.m, whole)
+	if v != 0 {
+		f.m[p] = v
+	} else {
+		delete(f.m, p)
+	}
+}
+
+func fdJoin(a, b *fdState) *fdState {
+	if a == nil || b == nil {
+		return nil
+	}
+	n := &fdState{m: map[fdPath]byte{}}
+	for k, v := range a.m {
+		if b.get(k) == v {
+			n.m[k] = v
+		}
+	}
+	for k, v := range b.m {
+		if a.get(k) == v {
+			n.m[k] = v
+		}
+	}
+	return n
+}
+
+func fdJoinAll(l []*fdState) *fdState {
+	if len(l) == 0 {
+		return nil
+	}
+	out := l[0]
+	for _, s := range l[1:] {
+		out = fdJoin(out, s)
+	}
+	return out
+}
+
+// path resolves an expression to a tracked storage path (after merging and aliasing).
+func (w *fdWalker) path(e ast.Expr) (fdPath, bool) {
+	info := w.s.pkg.TypesInfo
+	switch x := fdUnparen(e).(type) {
+	case *ast.Ident:
+		if x.Name == "_" {
+			return fdPath{}, false
+		}
+		o := info.Uses[x]
+		if o == nil {
+			o = info.Defs[x]
+		}
+		if m, ok := w.merge[o]; ok {
+			o = m
+		}
+		if a, ok := w.alias[o]; ok {
+			return w.path(a)
+		}
+		v, ok := o.(*types.Var)
+		if !ok || v.IsField() || v.Pkg() == nil || v.Parent() == v.Pkg().Scope() || w.noFacts[v] {
+			return fdPath{}, false
+		}
+		return fdPath{o: v}, true
+	case *ast.SelectorExpr:
+		f, ok := info.Uses[x.Sel].(*types.Var)
+		if !ok || !f.IsField() {
+			return fdPath{}, false
+		}
+		p, ok := w.path(x.X)
+		if !ok || p.f != "" || !fdIsStructType(p.o.Type()) {
+			return fdPath{}, false
+		}
+		return fdPath{p.o, f.Name()}, true
+	}
+	return fdPath{}, false
+}
+
+// classify: what assigning e to a variable of type lt makes of the variable.
+func (f *fdState) classify(w *fdWalker, e ast.Expr, lt types.Type) byte {
+	info := w.s.pkg.TypesInfo
+	tv, ok := info.Types[e]
+	if !ok || tv.Type == nil || lt == nil {
+		return 0
+	}
+	if tv.IsNil() {
+		return 'z'
+	}
+	if tv.Value != nil {
+		c := &fdCtx{s: w.s}
+		if c.isZeroConst(e) {
+			return 'z'
+		}
+		if _, isIface := lt.Underlying().(*types.Interface); isIface {
+			return 'n' // a boxed constant
+		}
+		return 0
+	}
+	if p, ok := w.path(e); ok && types.Identical(tv.Type, lt) {
+		return f.get(p)
+	}
+	nilable := func(t types.Type) bool {
+		switch t.Underlying().(type) {
+		case *types.Pointer, *types.Interface, *types.Map, *types.Chan, *types.Signature, *types.Slice:
+			return true
+		}
+		return false
+	}
+	if !nilable(lt) {
+		if cl, ok := fdUnparen(e).(*ast.CompositeLit); ok && len(cl.Elts) == 0 && fdIsStructType(lt) {
+			return 'z'
+		}
+		return 0
+	}
+	switch x := fdUnparen(e).(type) {
+	case *ast.UnaryExpr:
+		if x.Op == token.AND {
+			return 'n'
+		}
+	case *ast.CallExpr:
+		switch fn := fdUnparen(x.Fun).(type) {
+		case *ast.Ident:
+			if b, ok := info.Uses[fn].(*types.Builtin); ok && (b.Name() == "new" || b.Name() == "make") {
+				return 'n'
+			}
+		case *ast.SelectorExpr:
+			if o, ok := info.Uses[fn.Sel].(*types.Func); ok && o.Pkg() != nil {
+				if k := o.Pkg().Path() + "." + o.Name(); k == "errors.New" || k == "fmt.Errorf" {
+					return 'n' // documented never to return nil
+				}
+			}
+		}
+	}
+	if _, isIface := lt.Underlying().(*types.Interface); isIface && !nilable(tv.Type) {
+		return 'n' // a value of a type without nil, boxed
+	}
+	return 0
+}
+
+// assign records lhs = (value class v); an lvalue that is not a tracked path makes
+// its base variable unknown.
+func (f *fdState) assign(w *fdWalker, l ast.Expr, v byte) {
+	if f == nil {
+		return
+	}
+	if id, ok := l.(*ast.Ident); ok && id.Name == "_" {
+		return
+	}
+	if p, ok := w.path(l); ok {
+		f.set(p, v)
+		return
+	}
+	info := w.s.pkg.TypesInfo
+	for e := l; ; {
+		switch x := e.(type) {
+		case *ast.ParenExpr:
+			e = x.X
+			continue
+		case *ast.SelectorExpr:
+			if p, ok := w.path(x); ok { // x.f.g…: the first-level field and the whole
+				f.set(p, 0)
+				return
+			}
+			e = x.X
+			continue
+		case *ast.IndexExpr:
+			e = x.X
+			continue
+		case *ast.StarExpr:
+			e = x.X
+			continue
+		case *ast.Ident:
+			o := info.Uses[x]
+			if m, ok := w.merge[o]; ok {
+				o = m
+			}
+			if a, ok := w.alias[o]; ok {
+				f.assign(w, a, 0)
+				return
+			}
+			if o != nil {
+				f.kill(o)
+			}
+		}
+		return
+	}
+}
+
+// effects applies a simple statement.
+func (f *fdState) effects(w *fdWalker, st ast.Stmt) {
+	if f == nil || st == nil {
+		return
+	}
+	info := w.s.pkg.TypesInfo
+	switch s := st.(type) {
+	case *ast.AssignStmt:
+		if (s.Tok == token.ASSIGN || s.Tok == token.DEFINE) && len(s.Lhs) == len(s.Rhs) {
+			vals := make([]byte, len(s.Lhs))
+			for i, l := range s.Lhs {
+				var lt types.Type
+				if id, ok := l.(*ast.Ident); ok && info.Defs[id] != nil {
+					lt = info.Defs[id].Type()
+				} else {
+					lt = info.TypeOf(l)
+				}
+				vals[i] = f.classify(w, s.Rhs[i], lt)
+			}
+			for i, l := range s.Lhs {
+				f.assign(w, l, vals[i])
+			}
+			return
+		}
+		for _, l := range s.Lhs {
+			f.assign(w, l, 0)
+		}
+	case *ast.IncDecStmt:
+		f.assign(w, s.X, 0)
+	case *ast.DeclStmt:
+		gd, ok := s.Decl.(*ast.GenDecl)
+		if !ok || gd.Tok != token.VAR {
+			return
+		}
+		for _, sp := range gd.Specs {
+			vs := sp.(*ast.ValueSpec)
+			for i, id := range vs.Names {
+				o := info.Defs[id]
+				if o == nil || id.Name == "_" {
+					continue
+				}
+				if _, aliased := w.alias[o]; aliased {
+					continue // the variable is its target's storage: declaring it does nothing
+				}
+				switch {
+				case len(vs.Values) == 0:
+					f.assign(w, id, 'z')
+				case len(vs.Values) == len(vs.Names):
+					f.assign(w, id, f.classify(w, vs.Values[i], o.Type()))
+				default:
+					f.assign(w, id, 0)
+				}
+			}
+		}
+	case *ast.ExprStmt, *ast.EmptyStmt, *ast.BranchStmt, *ast.SendStmt:
+	default:
+		f.killWritten(w, st)
+	}
+}
+
+// killWritten forgets every variable n writes.
+func (f *fdState) killWritten(w *fdWalker, n ast.Node) {
+	if f == nil || n == nil {
+		return
+	}
+	for o := range fdWrittenIn(n, w.s.pkg.TypesInfo).asg {
+		if m, ok := w.merge[o]; ok {
+			o = m
+		}
+		if a, ok := w.alias[o]; ok {
+			f.assign(w, a, 0)
+			continue
+		}
+		f.kill(o)
+	}
+}
+
+// nilTest recognises X == nil / X != nil over a tracked path.
+func (w *fdWalker) nilTest(e ast.Expr) (p fdPath, eq, ok bool) {
+	b, isBin := fdUnparen(e).(*ast.BinaryExpr)
+	if !isBin || (b.Op != token.EQL && b.Op != token.NEQ) {
+		return fdPath{}, false, false
+	}
+	info := w.s.pkg.TypesInfo
+	x, y := b.X, b.Y
+	if tv, ok := info.Types[x]; ok && tv.IsNil() {
+		x, y = y, x
+	}
+	if tv, ok := info.Types[y]; !ok || !tv.IsNil() {
+		return fdPath{}, false, false
+	}
+	p, ok = w.path(x)
+	return p, b.Op == token.EQL, ok
+}
+
+// assume adds what cond == truth tells about nil tests.
+func (f *fdState) assume(w *fdWalker, cond ast.Expr, truth bool) {
+	if f == nil {
+		return
+	}
+	switch x := fdUnparen(cond).(type) {
+	case *ast.UnaryExpr:
+		if x.Op == token.NOT {
+			f.assume(w, x.X, !truth)
+		}
+		return
+	case *ast.BinaryExpr:
+		switch {
+		case x.Op == token.LAND && truth, x.Op == token.LOR && !truth:
+			f.assume(w, x.X, truth)
+			f.assume(w, x.Y, truth)
+			return
+		}
+	}
+	if p, eq, ok := w.nilTest(cond); ok {
+		v := byte('n')
+		if eq == truth {
+			v = 'z'
+		}
+		// (a test tells about the value, it does not write: fields of a zero whole stay zero)
+		if f.get(p) == 0 {
+			if p.f == "" {
+				f.m[p] = v
+			} else {
+				f.set(p, v)
+			}
+		}
+	}
+}
+
+// evalCond decides a condition made of nil tests with known outcome.
+func (w *fdWalker) evalCond(cond ast.Expr) (val, known bool) {
+	if w.facts == nil {
+		return false, false
+	}
+	switch x := fdUnparen(cond).(type) {
+	case *ast.UnaryExpr:
+		if x.Op == token.NOT {
+			v, k := w.evalCond(x.X)
+			return !v, k
+		}
+		return false, false
+	case *ast.BinaryExpr:
+		if x.Op == token.LAND || x.Op == token.LOR {
+			a, ka := w.evalCond(x.X)
+			b, kb := w.evalCond(x.Y)
+			and := x.Op == token.LAND
+			switch {
+			case ka && a != and:
+				return a, true // false && … / true || …
+			case kb && b != and:
+				return b, true
+			case ka && kb:
+				return and, true
+			}
+			return false, false
+		}
+	}
+	if p, eq, ok := w.nilTest(cond); ok {
+		switch w.facts.get(p) {
+		case 'z':
+			return eq, true
+		case 'n':
+			return !eq, true
+		}
+	}
+	return false, false
 }
